@@ -203,11 +203,18 @@ def run_lean(script_path, go_path, timeout=900):
     return mism, r.stdout[-500:]
 
 
+_ctr = [0]
+_ctr_lock = __import__("threading").Lock()
+
+
 def execute(lines, tag):
     """run both executors; returns (mismatches, go_lines_count, crash_info)"""
     os.makedirs(WORK, exist_ok=True)
-    sp = os.path.join(WORK, "%s_%d.txt" % (tag, os.getpid()))
-    gp = os.path.join(WORK, "%s_%d.go" % (tag, os.getpid()))
+    with _ctr_lock:
+        _ctr[0] += 1
+        k = _ctr[0]
+    sp = os.path.join(WORK, "%s_%d_%d.txt" % (tag, os.getpid(), k))
+    gp = os.path.join(WORK, "%s_%d_%d.go" % (tag, os.getpid(), k))
     write_lines(sp, lines)
     rc, err = run_go(sp, gp)
     crash = None
@@ -333,48 +340,68 @@ def check_property(pid, tier, seed, replay_only=None):
     cov = {"evaluations": 0, "suites": {}, "histogram": {}, "samples": [], "foreign_mismatches": [], "distinct": set()}
     known = load_known()
     amplify = 4 if proof_broken else 1
+    jobs = []
     for (suite, scale) in P["suites"]:
         sc = scale * (props.THOROUGH_SCALE if tier == "thorough" else 1) * amplify
         seeds = [seed] if tier == "quick" else [seed + i for i in range(props.THOROUGH_SEEDS)]
         for sd in seeds:
-            lines, hist = gen.generate(suite, sd, sc, tier)
-            for k, v in hist.items():
-                cov["histogram"][k] = cov["histogram"].get(k, 0) + v
-            mism, nout, crash = execute(lines, "%s_%s_%d" % (pid, suite, sd))
-            cov["evaluations"] += nout
-            cov["suites"].setdefault(suite, {"lines": 0, "runs": 0})
-            cov["suites"][suite]["lines"] += nout
-            cov["suites"][suite]["runs"] += 1
-            for l in lines:
-                toks = l.split(" ")
-                cov["distinct"].add((toks[0], len(toks)))
-            if len(cov["samples"]) < 3:
-                k = min(len(lines), 6)
-                cov["samples"].append({"suite": suite, "seed": sd, "first_lines": [x[:160] for x in lines[:k]]})
-            for mm in mism:
-                op = op_of(mm["cmd"])
-                owned = P.get("owns")
-                if owned is not None and op not in owned:
-                    cov["foreign_mismatches"].append({"suite": suite, "seed": sd, "op": op, "line": mm["line"]})
-                    continue
-                script = minimise(lines, mm["line"], op, budget=60 if tier == "quick" else 200)
-                mm2, _, _ = execute(script, "final")
-                final = [m for m in mm2 if m["line"] == len(script)]
-                rec = final[0] if final else mm
-                sig = signature(pid, script, rec)
-                k = match_known(known, pid, sig, script, rec)
-                if k:
-                    known_hits.append((k, script))
-                    continue
-                h = hashlib.sha256("\n".join(script).encode()).hexdigest()[:10]
-                rp = os.path.join(ROOT, "replays", "%s-%s.json" % (pid, h))
-                json.dump({"property": pid, "seed": sd, "tier": tier, "suite": suite, "script": script,
-                           "failing_command": rec["cmd"], "model_expected": rec["expected"], "go_output": rec["got"],
-                           "signature": sig, "crash": crash,
-                           "how_to_replay": "python3 tools/run_check.py --replay %s" % os.path.relpath(rp, ROOT)},
-                          open(rp, "w"), indent=1)
-                violations.append((rp, ""))
-                break   # one minimised report per suite run is enough
+            jobs.append((suite, sc, sd))
+
+    def run_job(job):
+        suite, sc, sd = job
+        lines, hist = gen.generate(suite, sd, sc, tier)
+        mism, nout, crash = execute(lines, "%s_%s_%d" % (pid, suite, sd))
+        out = {"suite": suite, "seed": sd, "lines": lines, "hist": hist, "nout": nout, "crash": crash, "foreign": [], "viol": None,
+               "known": []}
+        for mm in mism:
+            op = op_of(mm["cmd"])
+            owned = P.get("owns")
+            if owned is not None and op not in owned:
+                out["foreign"].append({"suite": suite, "seed": sd, "op": op, "line": mm["line"]})
+                continue
+            script = minimise(lines, mm["line"], op, budget=60 if tier == "quick" else 200)
+            mm2, _, _ = execute(script, "final")
+            final = [m for m in mm2 if m["line"] == len(script)]
+            rec = final[0] if final else mm
+            sig = signature(pid, script, rec)
+            k = match_known(known, pid, sig, script, rec)
+            if k:
+                out["known"].append((k, script))
+                continue
+            out["viol"] = (script, rec, sig)
+            break   # one minimised report per suite run is enough
+        return out
+
+    from concurrent.futures import ThreadPoolExecutor
+    workers = 1 if tier == "quick" and len(jobs) <= 1 else min(12, len(jobs))
+    with ThreadPoolExecutor(max_workers=workers) as ex:
+        results = list(ex.map(run_job, jobs))
+    for out in results:
+        suite, sd, lines = out["suite"], out["seed"], out["lines"]
+        for k, v in out["hist"].items():
+            cov["histogram"][k] = cov["histogram"].get(k, 0) + v
+        cov["evaluations"] += out["nout"]
+        cov["suites"].setdefault(suite, {"lines": 0, "runs": 0})
+        cov["suites"][suite]["lines"] += out["nout"]
+        cov["suites"][suite]["runs"] += 1
+        for l in lines:
+            toks = l.split(" ")
+            cov["distinct"].add((toks[0], len(toks)))
+        if len(cov["samples"]) < 3:
+            k = min(len(lines), 6)
+            cov["samples"].append({"suite": suite, "seed": sd, "first_lines": [x[:160] for x in lines[:k]]})
+        cov["foreign_mismatches"].extend(out["foreign"])
+        known_hits.extend(out["known"])
+        if out["viol"]:
+            script, rec, sig = out["viol"]
+            h = hashlib.sha256("\n".join(script).encode()).hexdigest()[:10]
+            rp = os.path.join(ROOT, "replays", "%s-%s.json" % (pid, h))
+            json.dump({"property": pid, "seed": sd, "tier": tier, "suite": suite, "script": script,
+                       "failing_command": rec["cmd"], "model_expected": rec["expected"], "go_output": rec["got"],
+                       "signature": sig, "crash": out["crash"],
+                       "how_to_replay": "python3 tools/run_check.py --replay %s" % os.path.relpath(rp, ROOT)},
+                      open(rp, "w"), indent=1)
+            violations.append((rp, ""))
     if proof_broken and not violations:
         h = hashlib.sha256(proof_broken.encode()).hexdigest()[:10]
         rp = os.path.join(ROOT, "replays", "%s-proof-%s.json" % (pid, h))
